@@ -135,9 +135,10 @@ Proof.
       * unfold reconstructs. rewrite H7. exact Hpos.
       * exists (mkMsg (lk_msg l) (p_hdrs p) np). auto.
     + now apply Hrej.
-  - destruct (Nat.eqb (length rs) 1) eqn:L; [|discriminate]. intros _.
-    apply Nat.eqb_eq in L. destruct rs as [|r [|? ?]]; try discriminate. simpl.
-    repeat split. constructor; [|constructor]. intros k. reflexivity.
+  - intros _. split; [now rewrite map_length|]. split; [rewrite map_map; apply map_id|].
+    split.
+    + induction rs as [|r rest IH]; simpl; auto.
+    + induction rs as [|r rest IH]; simpl; constructor; [|exact IH]. intros k. reflexivity.
 Qed.
 
 (** a position answered 4xx/5xx adds nothing — in EVERY transaction outside
@@ -159,16 +160,15 @@ Proof.
       destruct Hin as [[= <- <-]|H]; [reflexivity | now apply IH]. }
     subst c. pose proof (proj1 (Forall_forall _ _) Fa a Ha) as [Hrej _]. apply Hrej.
     pose proof (Hm a Ha) as M. unfold mismatch in M. apply negb_false_iff, eqb_prop in M. congruence.
-  - intros _ c a Hin _. destruct rs as [|r rest]; simpl in Hin; [contradiction|].
-    destruct Hin as [[= <- <-]|[]]. intros k. reflexivity.
+  - intros _ c a Hin _. apply in_combine_r in Hin. apply in_map_iff in Hin.
+    destruct Hin as (r & <- & _). intros k. reflexivity.
 Qed.
 
-(** every reply is a reply for that position's recipient, whenever the
-    message parses (one reply per recipient) *)
+(** one reply per recipient, always *)
 Lemma c01_one_reply_per_recipient_l w folder rs p clk :
-  p_ok p = true -> length (snd (fst (lmtp_data w folder rs p clk))) = length rs.
+  length (snd (fst (lmtp_data w folder rs p clk))) = length rs.
 Proof.
-  intros E. unfold lmtp_data. rewrite E. simpl.
+  unfold lmtp_data. destruct (p_ok p); simpl; [|apply map_length].
   destruct (deliver_all w folder rs p clk 0). simpl. apply map_length.
 Qed.
 
